@@ -36,7 +36,10 @@ def events(c, rid, run):
 
 
 def run_stream(ctx, tier, seed, cap=None):
-    cases = streams.tlc_cases(ctx, "MC_Pipe", "MC_Pipe_q" if tier == "quick" else "MC_Pipe_t", cap, seed)
+    cases = streams.tlc_cases(ctx, "MC_Pipe", "MC_Pipe_q", cap, seed)
+    if tier != "quick":
+        # three members (one trait instruction): every placement of repeat / stop_repeat / skip_repeat over three members
+        cases = cases + streams.tlc_cases(ctx, "MC_Pipe", "MC_Pipe_t", 150000, seed)
     inp = [{"id": i, "srcs": [src(c)]} for i, c in enumerate(cases)]
     res = core.expand(inp, "syn1", events=True)
     runs = [events(c, f"pipe:{i}", r["runs"][0]) for i, (c, r) in enumerate(zip(cases, res))]
